@@ -1,4 +1,5 @@
 import CalicoVerif.Proofs.C25Inv2
+import CalicoVerif.Proofs.C25Conc
 /-!
 C25 — Reconnecting to Typha converges without stale or lost resources.
 
@@ -154,6 +155,71 @@ theorem synthOrder_perm (n order : List Key) : (synthOrder n order).Perm n := by
   split
   · rename_i h; exact List.isPerm_iff.mp h
   · exact List.Perm.refl _
+
+/-! ### the lock is released between pulling a batch and delivering it -/
+
+/-- **Pull/deliver commutation (simulation)**: the concurrent system `Sys2` — the sender pulls a batch under the
+lock, then hands its elements to the sink one at a time while upstream `OnUpdates` / `OnStatusUpdated` /
+`OnTyphaConnectionRestarted` calls interleave — is, after "finishing the in-flight batch", exactly the atomic
+system on the corresponding history. -/
+theorem concurrent_simulated_by_atomic (ops : List Op2) :
+    (Sys2.init.run ops).abs = Sys.init.run (absOps Sys2.init ops) := by
+  rw [run_abs, init_abs]
+
+/-- **Convergence with deliveries interleaved**: for ANY interleaving of upstream calls, pulls and individual
+deliveries, once the latest connection reported in-sync, the queue holds no update and the in-flight batch has
+been handed over, downstream equals the latest connection's view. -/
+theorem dedupe_converges_concurrent (ops : List Op2) :
+    let s := Sys2.init.run ops
+    s.insync = true → Drained s.buf → s.inflight = [] → ∀ k, s.down k = s.view k := by
+  intro s hi hd hf k
+  have hsim := concurrent_simulated_by_atomic ops
+  have hc := dedupe_converges (absOps Sys2.init ops)
+  simp only at hc
+  rw [← hsim] at hc
+  have := hc hi hd k
+  have hf' : (Sys2.init.run ops).inflight = [] := hf
+  simp only [Sys2.abs, hf', deliver] at this
+  exact this
+
+/-- **New/updated consistency with deliveries interleaved**: every update really handed to the sink so far is
+typed `Updated` exactly when downstream held the key at that moment. -/
+theorem update_type_consistent_concurrent (ops : List Op2) :
+    ∀ e ∈ (Sys2.init.run ops).log, e.1.val.isSome = true →
+      e.1.ut = if e.2 = true then utUpdated else utNew := by
+  intro e he hv
+  have hsim := concurrent_simulated_by_atomic ops
+  obtain ⟨rest, hp⟩ := deliver_log_prefix (Sys2.init.run ops).down (Sys2.init.run ops).log (Sys2.init.run ops).inflight
+  have hmem : e ∈ (Sys2.init.run ops).abs.log := by
+    show e ∈ (deliver _ _ _).2
+    rw [hp]; exact List.mem_append.mpr (Or.inl he)
+  rw [hsim] at hmem
+  exact update_type_consistent _ e hmem hv
+
+/-- Likewise for "no deletion of an unknown key" (well-formed upstream). -/
+theorem no_delete_of_unknown_concurrent (ops : List Op2) :
+    (Sys2.init.run ops).wf = true →
+      ∀ e ∈ (Sys2.init.run ops).log, e.1.val = none → e.2 = true := by
+  intro hw e he hv
+  have hsim := concurrent_simulated_by_atomic ops
+  obtain ⟨rest, hp⟩ := deliver_log_prefix (Sys2.init.run ops).down (Sys2.init.run ops).log (Sys2.init.run ops).inflight
+  have hmem : e ∈ (Sys2.init.run ops).abs.log := by
+    show e ∈ (deliver _ _ _).2
+    rw [hp]; exact List.mem_append.mpr (Or.inl he)
+  have hw' : (Sys2.init.run ops).abs.wf = true := hw
+  rw [hsim] at hmem hw'
+  exact no_delete_of_unknown _ hw' e hmem hv
+
+/-- An interleaving in which a restart and the new snapshot arrive while a batch is half delivered. -/
+example :
+    let s := Sys2.init.run
+      [ .upd [⟨1, some 10, 1, 0⟩, ⟨2, some 20, 2, 0⟩], .status inSync [], .pullOnly 100, .deliverOne,
+        .restart, .status waitForDatastore [], .upd [⟨2, some 21, 3, 0⟩], .deliverOne, .deliverOne,
+        .status inSync [1], .pullOnly 100, .deliverOne, .deliverOne, .deliverOne, .deliverOne ]
+    s.inflight = [] ∧ s.insync = true ∧ Drained s.buf ∧ s.down 1 = none ∧ s.down 2 = some (21, 3) ∧
+      s.log.map (fun e => (e.1.key, e.1.ut, e.2)) =
+        [(1, utNew, false), (2, utNew, false), (2, utUpdated, true), (1, utDeleted, true)] := by
+  decide
 
 /-! ### non-vacuity: a concrete history that exercises restart, resend, synthesised deletion -/
 
